@@ -18,7 +18,7 @@ import vplib as V
 import asmgen as G
 
 SPEC = os.path.join(V.SPEC, "Lifecycle")
-ARG = {"0": "0", "-1": "-1", "1": "1", "63": "63", "64": "64", "65": "65", "2^31": "2147483648", "2^63-1": "9223372036854775807",
+ARG = {"0": "0", "-1": "-1", "1": "1", "2^16": "65536", "63": "63", "64": "64", "65": "65", "2^31": "2147483648", "2^63-1": "9223372036854775807",
        "-2^63": "(0 - 9223372036854775807 - 1)", "wide-dec": "18446744073709551616", "wide-hex": "$1ffffffffffffffff", "wide-bin": "%1" + "0" * 64}
 
 
@@ -41,6 +41,9 @@ def site_stmt(site, a):
         "text-number": ".text 5", "if-string": '.if "a" { nop }',
         "seg-redefine": '.define segment { name = "zr" start = $1000 }\n.segment "zr" { lda #1\nnop }\n.define segment { name = "zr" start = $1000 }',
         "seg-redefine-moved": '.define segment { name = "zq" start = $1000 }\n.segment "zq" { lda #1 }\n.define segment { name = "zq" start = $3000 }\n.segment "zq" { nop }',
+        "seg-target-low": '.define segment { name = "zl" start = $1000 pc = $0000 }\n.segment "zl" {\n* = $0fff\nlda $1234\n}',
+        "seg-target-high": '.define segment { name = "zh" start = $1000 pc = $ff00 }\n.segment "zh" {\n* = $1100\nlda $1234\n}',
+        "loop-nested": ".loop %s { .loop %s { } }" % (a, a),
         "bank-redefine": '.define bank { name = "zd" }\n.define segment { name = "zv" start = $1000 bank = "zd" }\n.segment "zv" { nop }\n.define bank { name = "zd" size = 1 }',
     }
     return t[site]
